@@ -61,9 +61,13 @@ def gen_case(rng):
         a = [rng.choice(WORDS) for _ in range(size)]
         b = list(a)
     elif family == "int-f64":
-        da, db = rng.choice(["i8", "i16", "i32", "i64", "u8", "u16", "u32"]), "f64"
+        # integer array next to a float64 array (theorems C09_mixed_*): every width incl. 64 bit, values at the type
+        # limits and around +-2^53 (where the conversion starts to round); the type minimum of signed types is left out
+        # (hypothesis `arrNoMin`: numpy's integer abs wraps on it — finding F13, property C10)
+        da, db = rng.choice(["i8", "i16", "i32", "i64", "i64", "u8", "u16", "u32", "u64"]), "f64"
         lo, hi = INTS[da]
-        a = [max(lo + 1, min(hi, rng.choice([rng.randint(-1000, 1000), 2 ** 53 + rng.randint(-2, 2), hi, lo + 1])))
+        a = [max(lo + 1, min(hi, rng.choice([rng.randint(-1000, 1000), 2 ** 53 + rng.randint(-2, 2),
+                                             -(2 ** 53) + rng.randint(-2, 2), hi, hi - 1, lo + 1, lo + 2])))
              for _ in range(size)]
         b = [float(x) for x in a]
     else:
@@ -127,8 +131,9 @@ def evaluate(ctx, cases, tagsl):
     for c, tags, rep in zip(cases, tagsl, replies):
         impl = predio.run_impl(c["kind"], c["rel"], c["abs"], c["a"], c["b"])
         spec = spec_of(c)
+        hk = ["hk-" + rep["hk"]] if rep is not None and rep.get("hyp") == "1" and "hk" in rep else []
         ctx.case((c["kind"], c["rel"], c["abs"], c["a"], c["b"]), nontrivial=(c["a"]["v"] != c["b"]["v"] or c["a"]["shape"] != c["b"]["shape"]),
-                 tags=list(tags) + ["verdict-" + impl], sample={"case": c, "impl": impl, "spec": spec, "lean": rep})
+                 tags=list(tags) + ["verdict-" + impl] + hk, sample={"case": c, "impl": impl, "spec": spec, "lean": rep})
         if rep is not None and rep.get("hyp") == "1":
             if rep["model"] != impl:
                 ctx.mismatch(c, impl, rep["model"])
